@@ -1,6 +1,7 @@
 package logic
 
 import (
+	"github.com/bits-and-blooms/bitset"
 	"github.com/olive-io/bpmn/schema"
 	"github.com/olive-io/bpmn/v2/pkg/event"
 )
@@ -28,7 +29,10 @@ func verifCatch(n int, parallel bool) *schema.CatchEvent {
 func verifC14Catch(n, L int, parallel bool) {
 	s := NewCatchEventSatisfier(verifCatch(n, parallel), event.WrappingDefinitionInstanceBuilder)
 	var matched [4]int64
-	var fires int64
+	verifC14Run(s, n, L, parallel, matched, 0)
+}
+
+func verifC14Run(s *CatchEventSatisfier, n, L int, parallel bool, matched [4]int64, fires int64) {
 	for j := 0; j < L; j++ {
 		verifMerge()
 		h := verifNondetInt("h", 0, n) // n = event matching no definition
@@ -128,3 +132,71 @@ func verifC14Throw(n, L int) {
 
 func VerifC14_Throw2_L4() { verifC14Throw(2, 4) }
 func VerifC14_Throw3_L5() { verifC14Throw(3, 5) }
+
+// the same accounting from an arbitrary state of the family F = { k <= 3 open chains, nested in list order
+// (chains[0] >= chains[1] >= ...), every chain non-empty and not full }.  Every member of F is reached from the empty
+// satisfier by a history that completes no chain (k copies of a definition common to all chains open k chains {d}; every
+// other definition b, present in the first p_b chains, is then sent p_b times and fills exactly that prefix), so the
+// ghost counters of that history are matched[b] = p_b, fires = 0.  L further events from there are histories of length
+// up to 3n + L from the empty state - a slice of the long histories the from-empty scenarios cannot reach.
+func verifC14CatchFrom(n, L int) {
+	s := NewCatchEventSatisfier(verifCatch(n, true), event.WrappingDefinitionInstanceBuilder)
+	// enumerate the family: k open chains, definition b present in the first p[b] chains, max p = k, min p = 0
+	type fam struct {
+		k int
+		p [4]int
+	}
+	fams := make([]fam, 0, 64)
+	var rec func(b int, cur fam)
+	rec = func(b int, cur fam) {
+		if b == n {
+			mx, mn := 0, cur.k
+			for i := 0; i < n; i++ {
+				if cur.p[i] > mx {
+					mx = cur.p[i]
+				}
+				if cur.p[i] < mn {
+					mn = cur.p[i]
+				}
+			}
+			if mx == cur.k && mn == 0 {
+				fams = append(fams, cur)
+			}
+			return
+		}
+		for v := 0; v <= cur.k; v++ {
+			cur.p[b] = v
+			rec(b+1, cur)
+		}
+	}
+	for k := 0; k <= 3; k++ {
+		rec(0, fam{k: k})
+	}
+	c := verifNondetInt("family", 0, len(fams)-1)
+	var matched [4]int64
+	for c0 := range fams {
+		if c != c0 {
+			continue
+		}
+		f := fams[c0]
+		for j := 0; j < f.k; j++ {
+			bs := bitset.New(uint(n))
+			for b := 0; b < n; b++ {
+				if j < f.p[b] {
+					bs.Set(uint(b))
+				}
+			}
+			s.chains = append(s.chains, bs)
+		}
+		for b := 0; b < n; b++ {
+			matched[b] = int64(f.p[b])
+		}
+	}
+	verifMerge()
+	verifReach("pre-state")
+	verifC14Run(s, n, L, true, matched, 0)
+}
+
+func VerifC14_From3_L2() { verifC14CatchFrom(3, 2) }
+func VerifC14_From3_L3() { verifC14CatchFrom(3, 3) }
+func VerifC14_From3_L4() { verifC14CatchFrom(3, 4) }
